@@ -7,7 +7,7 @@ TIERS = {
     "thorough": dict(mc=[("MC_Discovery_t_lease.cfg", 12), ("MC_Discovery_t_match.cfg", 12), ("MC_Discovery_t_two.cfg", 12)], replay_limit=80000, random=dict(runs=12000, events=60)),
 }
 ASSUME = [
-    "discovery events are applied as discovery.rs applies them (update DiscoveryDB, then the notification handler of DPEventLoop); the glue of discovery.rs itself is exercised by the system driver (C07)",
+    "discovery events are applied as discovery.rs applies them (update DiscoveryDB, send the notification; the handler of DPEventLoop runs at once or, drawn per event, later while the DiscoveryDB is already ahead, in the order sent); the glue of discovery.rs itself is exercised by the system driver (C07)",
     "state space bounded by the constants in spec/MC_Discovery_*.cfg (participants, endpoints, lease values, clock steps, events per behaviour)",
     "virtual clock: no event falls on the exact lease boundary (model: leases 1100 / 2500 ms, steps of 400 / 1000 ms; random runs: leases end in 50 ms, steps are multiples of 100 ms), because real time keeps running under the virtual offset",
     "remote endpoints keep the QoS they were announced with; an endpoint may be announced before its participant was heard (SPDP lost)",
